@@ -80,7 +80,7 @@ func (t *Trimmer) markService(svc *parser.Service, ast *parser.Thrift, filename 
 		t.traceExtendMethod([]*parser.Service{svc}, svc, ast, filename)
 	}
 
-	if svc.Extends != "" {
+	if svc.Extends != "" && !t.extendsCut(svc) {
 		if _, ok := currentMap[svc]; ok {
 			// handle extension
 			if svc.Reference != nil {
@@ -230,6 +230,19 @@ func (t *Trimmer) keepServiceExtends(svc *parser.Service) {
 	t.extKeep[svc] = struct{}{}
 }
 
+// extendsCut tells whether cleanServiceExtends is going to cut the extends of svc
+func (t *Trimmer) extendsCut(svc *parser.Service) bool {
+	if _, keep := t.extKeep[svc]; keep {
+		return false
+	}
+	for _, s := range t.extServices {
+		if s == svc {
+			return true
+		}
+	}
+	return false
+}
+
 func (t *Trimmer) cleanServiceExtends() {
 	for _, svc := range t.extServices {
 		if _, keep := t.extKeep[svc]; keep {
@@ -295,6 +308,7 @@ func (t *Trimmer) traceExtendMethod(fathers []*parser.Service, svc *parser.Servi
 			}
 		}
 	}
+	back := false
 	if svc.Extends != "" {
 		var nextSvc *parser.Service
 		var nextAst *parser.Thrift
@@ -315,7 +329,7 @@ func (t *Trimmer) traceExtendMethod(fathers []*parser.Service, svc *parser.Servi
 				}
 			}
 		}
-		back := t.traceExtendMethod(append(fathers, nextSvc), nextSvc, nextAst, filename)
+		back = t.traceExtendMethod(append(fathers, nextSvc), nextSvc, nextAst, filename)
 		if !back {
 			t.markServiceExtends(svc)
 		} else {
@@ -326,7 +340,8 @@ func (t *Trimmer) traceExtendMethod(fathers []*parser.Service, svc *parser.Servi
 	}
 	if ret {
 		currentMap[svc] = struct{}{}
-		if svc.Reference != nil {
+		// the include of the base is needed only if something is inherited from it
+		if svc.Reference != nil && back {
 			t.markInclude(ast.Includes[svc.Reference.Index], filename)
 		}
 	}
